@@ -626,7 +626,10 @@ OWNER_SRC = {
 }
 OWNER_FIELDS_E = dict(FIELDS_E)
 OWNER_FIELDS_E.update({'ivar': '@ivar q: {w}', 'cvar': '@cvar c: {w}', 'var': '@var v: {w}', 'type-q': '@type q: {w}', 'ivar-new': '@ivar z: {w}', 'return+rtype': '@return: {w}\n@rtype: {w2}',
-                       'param-self': '@param self: {w}', 'type-only-return': '@rtype: {w}'})
+                       'param-self': '@param self: {w}', 'type-only-return': '@rtype: {w}',
+                       # the star parameters: documented only by a type, next to individually documented keywords / without anything else
+                       'kwtype-with-keyword': '@keyword zz: {w}\n@type kw: {w2}', 'kwtype-only': '@type kw: {w}', 'argstype-only': '@type args: {w}', 'kwtype-with-param': '@param a: {w}\n@type kw: {w2}',
+                       'keyword-and-kwparam': '@keyword zz: {w}\n@param kw: {w2}', 'kwtype-keyword-kwparam': '@keyword zz: {w}\n@param kw: {w2}\n@type kw: {w3}'})
 OWNER_FIELDS_NAP = {
     'google': dict(NAP_FIELDS['google'], **{'ivar': 'Attributes:\n    q: {w}', 'ivar-typed': 'Attributes:\n    q (int): {w}', 'methods': 'Methods:\n    m: {w}', 'example': 'Example:\n    {w}', 'refs': 'References:\n    {w}'}),
     'numpy': dict(NAP_FIELDS['numpy'], **{'ivar': 'Attributes\n----------\nq\n    {w}', 'ivar-typed': 'Attributes\n----------\nq : int\n    {w}', 'methods': 'Methods\n-------\nm\n    {w}', 'example': 'Examples\n--------\n{w}'}),
